@@ -206,7 +206,52 @@ def r12_5(ctx):
     ctx.floor("R12.5", "inline-tag-writes", n, 2)
 
 
+def r12_7(ctx):
+    """push_bytes_without_validating: the inline and the heap branch lay the result out identically: the kept part of the old
+    content (its length minus drop_left), then insert_bytes[..insert_len], then buf[drop_right..].  The heap branch does not copy
+    the old content, so its first write must start at (stored length - drop_left), where the inline branch's first copy ends."""
+    key, pcs = nfq.cells(ctx, AREA, "::push_bytes_without_validating")
+    inline, heap = [], []
+    for pc in nfq.feasible(pcs):
+        t = nfq.texts(pc)
+        if any(x.startswith("panic!") for x in t):
+            continue
+        copies = [x for x in t if x.startswith("call copy_and_advance(")]
+        if any(x.startswith("self.make_owned_with_capacity(") for x in t):
+            heap.append((pc, t, copies))
+        elif copies:
+            inline.append((pc, t, copies))
+    bad = None
+    if not inline or not heap:
+        raise AnchorMissing("push_bytes_without_validating: inline / heap branch not found")
+    sl = lambda c: re.search(r",(unsafe_slice\(.*\))\)$", c)
+    for pc, t, copies in inline:
+        if len(copies) != 3 or not all(sl(c) for c in copies):
+            bad = "the inline branch does not make three copies (old prefix, inserted bytes, new bytes)"
+            continue
+        old = sl(copies[0]).group(1)
+        m = re.fullmatch(r"unsafe_slice\((.*),0,\(\1\.len\(\) - \((.*)\.drop_left as usize\)\)\)", old)
+        if m is None:
+            bad = "the inline branch keeps %s of the old content, not its first (len - drop_left) bytes" % old[:120]
+    want = [sl(c).group(1) for c in inline[0][2][1:]] if bad is None else None
+    for pc, t, copies in heap:
+        if bad:
+            break
+        adds = [x for x in t if re.search(r"\.data_ptr\(\)\.add\(", x) and not x.startswith("call ")]
+        m = re.search(r"\.add\(\(\((.*)\.len as usize\) - \((.*)\.drop_left as usize\)\)\)$", adds[0]) if len(adds) == 1 else None
+        if m is None:
+            bad = "the heap branch starts writing at %s, not at (stored length - drop_left): with a non-zero drop_left (WTF-8 surrogate joining) the appended bytes land at the wrong offset and old bytes are left in place or overwritten" % (adds[0][-110:] if adds else "?")
+            break
+        got = [sl(c).group(1) for c in copies if sl(c)]
+        if got != want:
+            bad = "the heap branch copies %s where the inline branch copies %s" % ([g[:60] for g in got], [w[:60] for w in want])
+    ctx.ob("R12.7", "append-layout-agrees-between-inline-and-heap", bad is None, bad or "old[..len-drop_left] ++ insert_bytes[..insert_len] ++ buf[drop_right..] in both branches; the heap write starts at len - drop_left",
+           "tendril Tendril::push_bytes_without_validating")
+
+
 def run(ctx):
+    ctx.rule("R12.7", "push_bytes_without_validating lays the appended bytes out identically in its inline and heap branches; the heap write starts at (stored length - drop_left)")
+    ctx.guard("R12.7", "append-layout", lambda: r12_7(ctx))
     ctx.rule("R12.1", "every additional view of a heap buffer is preceded by make_buf_shared and incref")
     ctx.rule("R12.2", "Drop destroys on exactly two edges (owned; shared and last, after the acquire fence); nothing else calls destroy")
     ctx.rule("R12.3", "into_send owns first; the atomic counter uses single RMW operations with Release on decrement; the only manual Send/Sync impl is SendTendril: Send")
